@@ -2,6 +2,7 @@
   C12 — CSV reading depends only on content, never on how the stream is chunked (Python reader).
 -/
 import Rbql.Proofs.ReaderPyLines
+import Rbql.Proofs.ReaderPyRecords
 namespace Rbql
 
 /-- For every partition of the text into non-empty pieces and every chunk size ≥ 1, the physical
@@ -24,6 +25,17 @@ theorem C12_rows_two_partitions (c : RCfg) (chunk' : Nat) (hc : 1 ≤ c.chunk) (
     allRowsSimple c (totalLen p1 + 1) { stream := p1 } =
       allRowsSimple { c with chunk := chunk' } (totalLen p2 + 1) { stream := p2 } := by
   rw [rows_of_pieces c hc p1 h1, rows_of_pieces { c with chunk := chunk' } hc' p2 h2, hflat]
+
+/-- The full statement: header, records, warnings (BOM, defective quoting, field counts with their
+record numbers) or the IO error delivered by the reader — through comment skipping, multi-line
+quoted_rfc assembly, the header / WITH (header) logic — depend only on the content of the stream:
+any two partitions into non-empty pieces of the same text, read with any two chunk sizes, give the
+same result. -/
+theorem C12_records_chunk_independent (c : RCfg) (chunk' : Nat) (hc : 1 ≤ c.chunk) (hc' : 1 ≤ chunk')
+    (hasHeader : Bool) (modifier : Option Bool) (p1 p2 : List Str)
+    (h1 : ∀ p ∈ p1, p ≠ []) (h2 : ∀ p ∈ p2, p ≠ []) (hflat : p1.flatten = p2.flatten) :
+    readAll c hasHeader modifier p1 = readAll { c with chunk := chunk' } hasHeader modifier p2 :=
+  readAll_content_only c chunk' hc hc' hasHeader modifier p1 p2 h1 h2 hflat
 
 /-- the line specification on the delicate inputs -/
 theorem C12_crlf_is_one_break : linesSpec ['a', CR, LF, 'b'] = [['a'], ['b']] := by decide
